@@ -34,7 +34,7 @@ N5 = 29281
 N5_USED = min(N5, int(os.environ.get("RV_C13_ENUM5", N5) or N5))        # development only
 Q5 = 900
 QUICK_BN = 900
-THOROUGH_BN = int(os.environ.get("RV_C13_TBN", 2400) or 2400)
+THOROUGH_BN = int(os.environ.get("RV_C13_TBN", 3600) or 3600)
 _LIMIT = int(os.environ.get("RV_C13_LIMIT", 0) or 0)                    # development only: prefix of quick
 _ONLY_BN = bool(os.environ.get("RV_C13_ONLY_BN"))                       # development only: skip criterion part
 
@@ -50,8 +50,8 @@ RULE = ("case idx -> (a) the idx-th labelled DAG of the exhaustive enumeration o
         "latent sets, every ordered observed pair (X, Y) x every Z among the non-descendants of X (Z may contain "
         "latents) for is_valid_backdoor_adjustment_set and is_valid_adjustment_set, every observed Z for "
         "is_valid_frontdoor_adjustment_set, plus get_all_backdoor/get_all_frontdoor/get_minimal_adjustment_set for "
-        "every pair (thorough: each 5-node DAG is judged in 2 of the 8 hash-seed cells, each random BN in 4, everything "
-        "else in all cells); (b) random discrete BNs on 3-6 (thorough 3-7) string-named nodes, cards 1-3, state names "
+        "every pair (thorough: each 5-node DAG is judged in 4 of the 8 hash-seed cells, everything else in all "
+        "cells); (b) random discrete BNs on 3-6 (thorough 3-7) string-named nodes, cards 1-3, state names "
         "id/1-based/permuted ints/strings/mixed, exact zeros in half of the networks, 0-2 latents: do-sets of size 1-3 "
         "(single, random pair, parent-child, ancestor-descendant, triple) -> do() surgery in both inplace modes and "
         "several argument forms, DAG.do, query with the default adjustment for 1-3 query sets disjoint from do and "
@@ -264,12 +264,9 @@ def gen_case(seed, idx, tier):
         if idx < N5_USED:
             j = idx if N5_USED == N5 else (idx * N5) // N5_USED
             spec = _crit_spec(rng, 5, _enum(5)[j], "enum5")
-            spec["cells"] = [idx % 4, 4]           # judged in 2 of the 8 hash-seed cells (see run_case)
+            spec["cells"] = [idx % 2, 2]           # judged in 4 of the 8 hash-seed cells (see run_case)
             return spec
         idx -= N5_USED
-        spec = _bn_spec(gen.rng_for("C13", "bn", seed, idx, tier), tier)
-        spec["cells"] = [idx % 2, 2]               # judged in 4 of the 8 hash-seed cells
-        return spec
     else:
         if idx < Q5:
             return _crit_spec(rng, 5, _enum(5)[_quick5(seed)[idx]], "enum5-sample")
@@ -1083,8 +1080,8 @@ def _rank(ctx):
 def run_case(spec, ctx):
     ctx.__dict__.setdefault("c13_seen", {}).clear()
     if spec.get("cells"):
-        # thorough tier: the big enumerated / random parts are spread over the hash-seed cells instead of being
-        # repeated in all of them (every case still runs under >= 2 different hash seeds)
+        # thorough tier: the 5-node enumeration is spread over the hash-seed cells instead of being repeated in all of
+        # them (every DAG still runs under 4 different hash seeds)
         k, m = spec["cells"]
         r = _rank(ctx)
         if r is not None and r % m != k:
